@@ -124,6 +124,7 @@ def gen_plan(prop, run_seed, tier):
                 st["poison"] = f.choice(["zero", "nan", "nan_one"])
         if op == "save_load":
             st["cycles"] = s.choice([1, 1, 2, 3])
+            st["torn"] = f.random() if f.random() < 0.3 else None
             if prop == "C02":
                 st["rep"] = s.random() < 0.25  # mostly keep the saved object alive: it may be edited and saved again
                 st["keep_original_last"] = True
@@ -560,6 +561,17 @@ def op_reveal(ctx, st, t, cli=False):
             if ctx.prop == "C12":
                 before_counts = _meta_counts(ctx, src)
             dst = ctx.scratch.file("advanced_screen.h5")
+            if rnd.random() < 0.35:
+                # fault leftover.earlier-attempt: the step already ran once into this job directory with OTHER arguments
+                # (more plates, or other plates) before the command line was corrected; its output is still there
+                all_ids = sorted(set(_ref_plate_ids(live.rows).values()))
+                other = sorted(set(ids) | set(rnd.sample(all_ids, rnd.randint(1, len(all_ids))))) if rnd.random() < 0.7 else \
+                    rnd.sample(all_ids, rnd.randint(1, len(all_ids)))
+                try:
+                    launch.run_cli("reveal_plate", ["--screen", src, "--output", dst, "--plate-id"] + [int(x) for x in other])
+                    ctx.stats.fault("leftover.earlier-attempt")
+                except Exception:
+                    pass
             launch.run_cli("reveal_plate", ["--screen", src, "--output", dst, "--plate-id"] + ids)
             new = Screen.load_h5(dst)
         else:
@@ -689,6 +701,8 @@ def op_save_load(ctx, st, t):
                 ctx.violation("C02.not-fixed-point", "Screen", "second save/load cycle changed the logical digest")
             d_prev = d
         cur = new
+    if st.get("torn") is not None:
+        _torn_save(ctx, live.screen, st["torn"])
     sd, td, _, _ = ref.mapping_dicts(live.screen)
     child = Live(cur, list(live.rows), live.lineage_sizes, (sd, td), live.tag)
     _lineage_check(ctx, live, child, "save_load")
@@ -698,6 +712,51 @@ def op_save_load(ctx, st, t):
         # the object that was saved stays the "most recent" one: it may be edited in place and saved again
         ctx.pool.remove(live)
         ctx.pool.append(live)
+
+
+def _torn_save(ctx, screen, u):
+    """fault store.torn-save: the process is killed while the archive is being written (before the k-th dataset).  The
+    file is closed as the interpreter unwinds, so what is left is a well-formed archive holding a prefix of the datasets.
+    A later step that finds it must refuse it or read exactly what was being saved -- never something else."""
+    from batchie.data import Screen
+
+    counter = launch.FaultPoints(everywhere=True)
+    try:
+        with counter:
+            screen.save_h5(ctx.scratch.file("count.h5"))
+    except Exception:
+        return
+    n_writes = counter.seen.get("h5.write", 0)
+    if not n_writes:
+        return
+    k = 1 + int(u * n_writes) % n_writes
+    path = ctx.scratch.file("torn.h5")
+    fp = launch.FaultPoints({"h5.write": k}, everywhere=True)
+    try:
+        with fp:
+            screen.save_h5(path)
+    except launch.SimKilled:
+        pass
+    except Exception:
+        return
+    if not fp.fired or not os.path.exists(path):
+        return
+    ctx.stats.fault("store.torn-save")
+    ctx.stats.oracle_evals += 1
+    try:
+        got = Screen.load_h5(path)
+    except Exception as e:
+        ctx.log.ev("torn-refused", k, n_writes, type(e).__name__)
+        ctx.stats.probe("torn_archive_refused")
+        return
+    same = (ref.content_rows(got) == ref.content_rows(screen) and ref.row_ids(got) == ref.row_ids(screen)
+            and ref.mapping_dicts(got) == ref.mapping_dicts(screen)
+            and str(got.control_treatment_name) == str(screen.control_treatment_name))
+    ctx.log.ev("torn-loaded", k, n_writes, same)
+    if not same:
+        ctx.violation(f"{ctx.prop}.torn-archive-read-as-something-else", "Screen.load_h5",
+                      f"an archive whose writing was cut off before dataset {k} of {n_writes} was accepted by load_h5 and gives a screen "
+                      f"that differs from the one being saved (rows / ids / mappings / control name)")
 
 
 def _c02_compare(ctx, a, b, cycle):
